@@ -204,6 +204,8 @@ def run(ctx):
                     ctx.hit(f"inconclusive:generated engine does not build: {type(ex).__name__}: {str(ex)[:60]}")
                     continue
                 ctx.hit("route:" + spec["route"])
+                if rnd.random() < 0.3:
+                    E.retype(ctx, fl, rnd, engine)
                 for a, alias in enumerate(ALIASES):
                     with fl.settings.context(alias=alias):
                         for encapsulated in (False, True):
